@@ -1,4 +1,5 @@
 import TvCore.Model.Ops
+import TvCore.Props.C04Socks
 /-
   Replays one case of a tv-sim trace on the World model (correspondence K).
 -/
@@ -88,6 +89,9 @@ structure RState where
   inStep : Bool := false
   bad : Option (Nat × String) := none      -- first mismatch: line number, detail
   done : Bool := false                     -- stop comparing (after a panic)
+  stepNo : Nat := 0                        -- completed steps
+  loGrew : Nat := 0                        -- step in which a loopback message was last queued
+  loCount : Nat := 0                       -- loopback messages queued on running hosts
 
 def RState.fail (s : RState) (ln : Nat) (msg : String) : RState :=
   match s.bad with
@@ -111,6 +115,12 @@ def ctlOp (s : RState) (t : List String) : RState :=
     { s with w := w.register ip (kvGet rest "kind" == some "client"), expectObs := some "ok" }
   | ["dns", name] => let (ip, w) := w.dnsLookup name; { s with w := w, expectObs := some s!"ok {ip}" }
   | ["dnsip", ip] => { s with expectObs := some s!"ok {ip}" }
+  | ["dnsbulk", pfx, n] =>
+    let (w, ips) := (List.range (n.toNat?.getD 0)).foldl (fun (acc : World × List Nat) i =>
+      let (ip, w) := acc.1.dnsLookup s!"{pfx}{i}"
+      (w, ip :: acc.2)) (w, [])
+    let last := match ips with | ip :: _ => toString ip | [] => "-"
+    { s with w := w, expectObs := some s!"ok distinct={ips.eraseDups.length} last={last} xor={ips.foldl Nat.xor 0}" }
   | ["rdns", ip] =>
     { s with expectObs := some (match w.dnsReverse (ip.toNat?.getD 0) with | some n => s!"ok {n}" | none => "none") }
   | ["dnsprefix", p] =>
@@ -134,6 +144,21 @@ def ctlOp (s : RState) (t : List String) : RState :=
     let i := w.hosts.length
     let (ip, w) := w.dnsLookup s!"n{i}"
     { s with w := w.register ip false, expectObs := some s!"ok {i} ip={ip}" }
+  | [name, as, bs] =>
+    -- host-set forms (`Sim::partition(regex, regex)` …): every ordered pair of distinct hosts, first set outermost
+    let xs := (as.splitOn ",").map hostOf
+    let ys := (bs.splitOn ",").map hostOf
+    let f? : Option (World → Nat → Nat → World) :=
+      if name == "partition_set" then some ctlPartition
+      else if name == "partition1_set" then some ctlPartitionOneway
+      else if name == "repair_set" then some ctlRepair
+      else if name == "repair1_set" then some ctlRepairOneway
+      else if name == "hold_set" then some ctlHold
+      else if name == "release_set" then some ctlRelease
+      else none
+    match f? with
+    | some f => { s with w := w.forPairs xs ys f, expectObs := some "ok" }
+    | none => { s with expectObs := none }
   | ["simclock"] => { s with expectObs := some s!"ok elapsed={w.elapsed} epoch={1700000000000000000 + w.elapsed}" }
   | _ => { s with expectObs := none }
 
@@ -184,7 +209,7 @@ def line (s : RState) (ln : Nat) (l : String) : RState :=
       let s := if s.expectEv.isEmpty then s else s.fail ln s!"expected {s.expectEv.head!}"
       let want := s!"step finished=true order={runningOrder s.w}"
       let s := if s.w.panicked.isSome then s else if got == want then s else s.fail ln s!"want {want}"
-      { s with w := s.w.stepEnd, inStep := false, expectObs := none }
+      { s with w := s.w.stepEnd, inStep := false, expectObs := none, stepNo := s.stepNo + 1 }
     else
       let s := match s.expectObs with
         | some want => if want == "?" || norm want == got then s else s.fail ln s!"want {want}"
@@ -192,6 +217,13 @@ def line (s : RState) (ln : Nat) (l : String) : RState :=
       let s := { s with expectObs := none }
       if got == "panic" then { s with done := true } else s
   | _ => s
+
+/-- every bind-table entry and every stream-table entry of every host belongs to a held object. -/
+def ownedOk (w : World) : Bool :=
+  w.hosts.all (fun hs => TV.C04.bindsOwnedB hs && (!w.cfg.fixConnectLeak || TV.C04.socksOwnedB w.cfg.fixConnectLeak hs))
+
+/-- loopback messages still queued on running hosts. -/
+def loPending (w : World) : Nat := (w.hosts.map (fun hs => if hs.running then hs.lo.length else 0)).sum
 
 def parseCfg (toks : List String) (link : Cfg) (fixLeak fixFin : Bool) : WCfg :=
   { tick := (if kvNat toks "tick_us" 0 > 0 then kvNat toks "tick_us" 0 * 1000 else kvNat toks "tick_ms" 1 * 1000000),
@@ -214,7 +246,18 @@ def replay (lines : List String) (link : Cfg) (fixLeak fixFin : Bool) : RState :
     | none => []
   let w0 : World := { cfg := parseCfg cfgToks link fixLeak fixFin, oracle := parseOracle lines,
                       v6 := kvGet cfgToks "ipv" == some "6" }
-  let (s, _) := lines.foldl (fun (acc : RState × Nat) l => (line acc.1 acc.2 l, acc.2 + 1)) ({ w := w0 }, 1)
+  let (s, _) := lines.foldl (fun (acc : RState × Nat) l =>
+    let s := line acc.1 acc.2 l
+    -- hypotheses of the aggregate release theorems (C04Own, C04Socks), on every state reached
+    let s := if s.bad.isNone && s.w.panicked.isNone && !ownedOk s.w then s.fail acc.2 "ownership invariant (BindsOwned / SocksOwned) broken" else s
+    let n := loPending s.w
+    let s := if n > s.loCount then { s with loGrew := s.stepNo, loCount := n } else { s with loCount := n }
+    (s, acc.2 + 1)) ({ w := w0 }, 1)
+  -- a loopback message is delivered by a task that sleeps one tick (at least one timer-wheel
+  -- millisecond): it cannot still be queued on a running host several steps later
+  let slack := (1000000 + s.w.cfg.tick - 1) / (max 1 s.w.cfg.tick) + 3
+  let s := if !s.done && s.w.panicked.isNone && loPending s.w > 0 && s.stepNo ≥ s.loGrew + slack then
+      s.fail 0 "a loopback message was never delivered" else s
   let s := if !s.done && !s.w.oracle.isEmpty then s.fail 0 "unused oracle values" else s
   if s.w.oraErr then s.fail 0 "missing oracle value" else s
 
